@@ -36,7 +36,7 @@ Print Assumptions C04_poll_delivers.
 
 (* Non-vacuity: two loads outstanding; completing them in either order and polling gives the same state. *)
 Definition c04_world : world :=
-  {| w_resp := [(1, WMissing); (2, WError)]; w_resp_reload := []; w_http := []; w_lock := None; w_class := []; w_file := []; w_max_redirects := 10; w_npm := None |}.
+  {| w_resp := [(1, WMissing); (2, WError)]; w_resp_reload := []; w_http := []; w_lock := None; w_class := []; w_file := []; w_max_redirects := 10; w_wasm_ext := []; w_wasm_nodts := []; w_npm := None |}.
 Definition c04_opts : bopts :=
   {| bo_kind := KAll; bo_is_dynamic := false; bo_skip_dynamic := false; bo_unstable_bytes := false;
      bo_unstable_text := false; bo_unstable_css := false |}.
